@@ -40,6 +40,16 @@ type stubBackend struct {
 	noMove   bool // sessions do not implement SessionMove
 	// failUnselect: Unselect takes part in the seeded failures too (only C05 sets it and knows how to judge it)
 	failUnselect bool
+	// idleLeaks: session operations invoked while Session.Idle was running without having been told to stop
+	idleLeaks []string
+}
+
+// judgeIdleLeaks: Session.Idle belongs to the IDLE command; once that command has ended, however it ended, the
+// backend has been told to stop before any other session operation (or Close) is invoked.
+func judgeIdleLeaks(r *R, b *stubBackend, phase string) {
+	if len(b.idleLeaks) > 0 {
+		r.Violate("idle-outlives-command", "", "%s: %s (%d occurrence(s))", phase, b.idleLeaks[0], len(b.idleLeaks))
+	}
 }
 
 func newStubBackend() *stubBackend { return &stubBackend{closed: map[int]int{}} }
@@ -62,6 +72,8 @@ var errStubNo = &imap.Error{Type: imap.StatusResponseTypeNo, Text: "stub says no
 type stubSession struct {
 	b  *stubBackend
 	id int
+	// idleStop is the stop channel of the Idle call in progress (nil when none)
+	idleStop <-chan struct{}
 }
 
 var (
@@ -73,6 +85,18 @@ var (
 func (s *stubSession) rec(method string, args ...string) (int, error) {
 	c := stubCall{Step: simrt.Step(), Sess: s.id, Method: method, Args: args}
 	var err error
+	if s.idleStop != nil && method != "Idle" {
+		// another session operation while Idle runs: legal only in the instant after Idle was told to stop
+		told := false
+		select {
+		case <-s.idleStop:
+			told = true
+		default:
+		}
+		if !told {
+			s.b.idleLeaks = append(s.b.idleLeaks, fmt.Sprintf("session #%d: %s invoked while Session.Idle is running and has not been told to stop", s.id, method))
+		}
+	}
 	if s.b.failEach != nil && method != "Close" && method != "Poll" && method != "Idle" && (method != "Unselect" || s.b.failUnselect) && s.b.failEach(method) {
 		c.Err = true
 		err = errStubNo
@@ -198,6 +222,8 @@ func (s *stubSession) Poll(w *imapserver.UpdateWriter, allowExpunge bool) error 
 
 func (s *stubSession) Idle(w *imapserver.UpdateWriter, stop <-chan struct{}) error {
 	s.rec("Idle")
+	s.idleStop = stop
+	defer func() { s.idleStop = nil }()
 	if s.b.idleHook != nil {
 		s.b.idleHook(s.id, w, stop)
 		return nil
